@@ -55,7 +55,7 @@ P['C07'] = dict(
                reach=['two-in-flight', 'acked', 'reconnected', 'a-publish-completed', 'qos2-publish', 'pubcomp', 'failing-pubrec'], samples=10)])
 
 _pub_assume = ['environment = shadow/vk_world.hpp: FIFO executor, virtual-time timers, stream socket and resolver completed by the harness', 'external events are injected only when the handler queue is empty',
-               'broker model: answers what it received (any listed reason code, any short form, any chunking), or sends one adversarial packet (unknown id, wrong type, inadmissible code, oversize property length); it never acknowledges the same packet twice']
+               'broker model: answers what it received (any listed reason code, any short form, any chunking), or sends one adversarial packet (unknown id, wrong type, inadmissible code, oversize property length); it never acknowledges the same packet twice, and it never sends a well-formed final acknowledgement bearing an identifier for which no exchange is open on its side while the client is writing a PUBLISH with that identifier (no client can tell that from an acknowledgement overtaking the write completion)']
 def _pub_job(name, mode, quick, thorough, reach):
     return dict(name=name, tu='harness/w_pub.cpp', entry='h_pub', engine='B', clock=True, defs={'VK_MODE': mode}, defs_quick={'VK_STEPS': quick, 'VK_REQS': 1}, defs_thorough={'VK_STEPS': thorough, 'VK_REQS': 2}, reach=reach, samples=10)
 P['C01'] = dict(
@@ -94,7 +94,7 @@ P['C04'] = dict(
     level_note='Bounds: 2 inbound messages and one request of the application (whose packet identifier equals the one the broker uses), 1 connection loss, 5 (quick) / 6 (thorough) steps; backlog limit 65535 of the receive channel not reached. The broker retransmits only after a reconnect that resumes the session (MQTT-4.4.0-1).',
     assumptions=_pub_assume[:2] + ['broker model is a conformant MQTT sender: DUP retransmission of unacknowledged PUBLISH and of PUBREL only after a reconnect with Session Present 1'],
     jobs=[dict(name='inbound', tu='harness/w_recv.cpp', entry='h_recv', engine='B', clock=True, defs={'VK_MSGS': 2}, defs_quick={'VK_STEPS': 5}, defs_thorough={'VK_STEPS': 6},
-               reach=['qos0-delivered', 'qos1-delivered', 'qos2-delivered', 'pubrel-sent', 'pubcomp-received', 'session-lost', 'session-resumed', 'publish-retransmitted', 'pubrel-retransmitted', 'write-lost-in-flight', 'own-publish'], samples=10)])
+               reach=['qos0-delivered', 'qos1-delivered', 'qos2-delivered', 'pubrel-sent', 'pubcomp-received', 'session-lost', 'session-resumed', 'publish-retransmitted', 'pubrel-retransmitted', 'write-lost-in-flight', 'own-publish', 'early-delivery'], samples=10)])
 
 P['C05'] = dict(
     level_text='On the real mqtt_client: up to 3 operations (publish QoS 0/1/2, subscribe, unsubscribe, a request rejected by validation) plus async_run and async_receive, interleaved with write completions, broker answers, per-operation cancellation (total and terminal), cancel(), async_disconnect (DISCONNECT written or not: then the 5 s timer fires), destruction and connection loss in every order up to the step bound, followed by async_run again. Monitors: every handler at most once and never inside the initiating call; after a stop every operation including async_run and async_receive has completed, the handler queue is empty, no socket/resolver operation is pending and no timer is armed. Job stop_during_handshake: the same stop events striking at every boundary between two completion handlers of a first connection attempt or a reconnect (after the resolve, the TCP connect, the CONNECT write, each piece of the CONNACK and every handler these queue), same monitors.',
@@ -175,12 +175,13 @@ P['C11'] = dict(
 _pid = 'harness/k_pid.cpp'
 P['C08'] = dict(
     level_text='Inductive step on the real packet_id_allocator: from an ARBITRARY state of up to 4 (quick) / 6 (thorough) free intervals with symbolic 16-bit bounds, constrained only by the representation invariant (built through the private-member access idiom), one allocate() or one free(p) of a symbolic in-use p: invariant preserved, 0 returned exactly when nothing is free, the lowest free id returned, and the free set changes by exactly that id (checked with a universally chosen probe id). The constructor state satisfies the invariant with exactly 1..65535 free; exhaustion boundary. Since the invariant is inductive this covers histories of any length up to the interval bound. Cross-checked by bounded histories from the initial state against a shadow set, and by the whole-client monitors of C15 (a rejected request leaves no id consumed) and C07/C01 (ids of outstanding exchanges).',
-    level_note='Bounds: vectors of <= 4 / 6 intervals; histories of 6 / 9 operations. Release discipline (job release_discipline = the C05 exploration with the additional monitor ids-in-use == outstanding exchanges after every step, read from the private allocator of the client).',
+    level_note='Bounds: vectors of <= 4 / 6 intervals; histories of 6 / 9 operations. Job exhaustion_on_client: the real client with an emptied free list (all 65535 identifiers in use; set through the access idiom, since 65535 simultaneous exchanges are out of reach): one or two requests of every kind are refused with pid_overrun, write nothing and leave the free set untouched; after the release of a symbolic identifier k the next request is accepted and uses k; then pid_overrun again. Release discipline (job release_discipline = the C05 exploration with the additional monitor ids-in-use == outstanding exchanges after every step, read from the private allocator of the client).',
     assumptions=['private member _free_ids is reached through the explicit-instantiation access idiom (no source change)'],
     jobs=[dict(name='pid_step', tu=_pid, entry='h_pid_step', engine='B', defs_quick={'VK_IVALS': 4}, defs_thorough={'VK_IVALS': 6}, reach=['allocated', 'exhausted', 'freed'], samples=12),
           dict(name='pid_init', tu=_pid, entry='h_pid_init', engine='B', defs_quick={'VK_IVALS': 3}, defs_thorough={'VK_IVALS': 5}, reach=['init'], samples=4),
           dict(name='pid_histories', tu=_pid, entry='h_pid_seq', engine='B', defs_quick={'VK_IVALS': 3, 'VK_OPS': 6}, defs_thorough={'VK_IVALS': 5, 'VK_OPS': 9}, reach=['freed'], samples=8),
           dict(name='release_discipline', tu='harness/w_cancel.cpp', entry='h_cancel', engine='B', clock=True, defs={'VK_OPS': 3}, defs_quick={'VK_STEPS': 4}, defs_thorough={'VK_STEPS': 6}, reach=['answered', 'cancel', 'drained'], samples=6),
+          dict(name='exhaustion_on_client', tu='harness/w_cancel.cpp', entry='h_pid_exhaustion', engine='B', clock=True, defs={'VK_OPS': 3}, reach=['refused', 'recovered', 'qos0-unaffected'], samples=6),
           dict(name='pid_step_A', tu=_pid, entry='h_pid_step', engine='A', twin='pid_step', defs={'VK_IVALS': 2}, unwind=6, timeout=900, tiers=['thorough'])])
 
 _cod = 'harness/e_codec.cpp'
